@@ -76,7 +76,10 @@ def gen_plan(seed, tier):
     plan = ensembles.gen_ensemble_plan(rng, seed, tier, ID)
     plan['kind'] = 'ensemble'
     plan['maps'] = ensembles.map_specs(rng, tier, 2)
-    plan['modes'] = ['solve', 'solve_step', 'steps']
+    plan['modes'] = ['solve', 'solve_step', 'steps', 'while'] if rng.random() < 0.5 else ['solve', 'steps', 'while']
+    if plan['limits'][0] is None:
+        plan['maps'] = [{'mode': rng.choice(['serial', 'shuffled', 'reversed']), 'salt': 0}]
+        plan['modes'] = ['solve', 'while']
     return plan
 
 
